@@ -20,11 +20,15 @@ func init() {
 			"return an authenticated identity (a non-nil mysql.Getter), every control-flow path from the lookup to such a return passes a branch on which the account's Locked flag is known to be " +
 			"false: a locked account can never be accepted, whatever the plugin. (U2) validateMysqlNativePassword indexes and slices its client-controlled arguments only in range (bounds engine). " +
 			"(U3) every return of validateMysqlNativePassword is the constant false or the result of a byte-wise comparison (bytes.Equal / subtle.ConstantTimeCompare / hmac.Equal): there is no other way " +
-			"to answer true. (U4) in the callers of validateMysqlNativePassword no path on which the stored hash is non-empty and the validation has not returned true reaches an accepting return.",
-		NotCovered: "host pattern matching and account selection in GetUser, plugin negotiation (HandleUser), correctness of the scramble arithmetic and of the caching_sha2 serialisation, " +
+			"to answer true. (U4) in the callers of validateMysqlNativePassword no path on which the stored hash is non-empty and the validation has not returned true reaches an accepting return. " +
+			"(H1) in MySQLDb.GetUser every disjunct (as parsed: || weaker than &&) of the condition under which a candidate account is handed back mentions the client host - the host parameter or a local copied from it - " +
+			"or is the '%' wildcard test, and the exact-key lookup carries the client host in its key: a disjunct that looks only at the stored account accepts it for a client connecting from anywhere.",
+		NotCovered: "host pattern matching itself and which of several matching accounts is chosen (only that every acceptance disjunct of GetUser constrains the client host is decided, H1), plugin negotiation (HandleUser), correctness of the scramble arithmetic and of the caching_sha2 serialisation, " +
 			"connection-security (REQUIRE SSL/X509) checks, the identity the session then runs as",
 		Run: func(c *Ctx) {
 			runC40(c, "sql/mysql_db", "MySQLDb.GetUser", "Locked", "validateMysqlNativePassword", 5, 2, 2)
+			c.Rule("C40-H1", "account selection depends on the client host: every disjunct of the condition under which GetUser hands back a candidate account mentions the client host (the host parameter or a copy) or is the '%' wildcard test, and the exact-key lookup carries the client host", 5)
+			runC40Host(c, "sql/mysql_db", "MySQLDb.GetUser", "host")
 		},
 		Fixture: func(c *Ctx, fx *Prog) {
 			expectFixture(c, fx, "c40: auth path without the Locked test, accepting return before the test, unguarded scramble loop, return true, accept after failed validation",
@@ -38,6 +42,9 @@ func init() {
 				func(fc *Ctx) {
 					runC40(fc, "testdata/c40/authdb", "DB.GetUser", "Locked", "validateMysqlNativePassword", 0, 0, 0)
 				})
+			expectFixture(c, fx, "c40 host: a loopback alias grouped so that it no longer tests the client host",
+				[]string{`C40-H1:DB.Lookup/accept:u.Host == "::1"`},
+				func(fc *Ctx) { runC40Host(fc, "testdata/c40/authdb", "DB.Lookup", "host") })
 		},
 		FixturePkgs: []string{"./testdata/c40/authdb"},
 	})
